@@ -78,7 +78,7 @@ def run(tier):
     rep = core.Report("C08", tier, "exploration")
     rep.rule = ("all sequences up to the level's length over alphabets/xmlhostile.txt (& < > quotes, entities, autolinks/URLs with & and quotes, every CriticMarkup marker, math and comment delimiters, CDATA end, ...) placed between two marker "
                 "words in %d syntactic positions (body contexts, link text/URL/title, image alt/title, reference title and attribute, metadata key/value, fence info, code, caption, notes, math) x {opml, fodt} (textual) and "
-                "{itmz mapdata.xml, odt members, epub OPF/nav/container/xhtml} (archives, unzipped with Python zipfile) x 5 extension sets; plus a length ladder (one word of 60..4100 bytes in every position); oracle: expat parses every XML member; distinct = distinct (document, format, options)" % len(POS))
+                "{itmz mapdata.xml, odt members, epub OPF/nav/container/xhtml} (archives, unzipped with Python zipfile) x 5 extension sets; plus a length ladder (one word of 60..4100 bytes in every position) and documents with one empty component; oracle: expat parses every XML member; distinct = distinct (document, format, options)" % len(POS))
     rep.assumptions = ["sources are valid UTF-8 without control characters by construction", "no fragment is a raw HTML tag (raw HTML is passed through by design)", "undefined entities such as &nbsp; in XHTML members are tolerated (expat with a foreign DTD)"]
     mmd.so_path(); dl = core.deadline_s(tier); alpha = load_alpha("xmlhostile")
     plan = [(1, TEXTUAL, False), (2, TEXTUAL, False), (1, ARCHIVES, True)] if tier == "quick" else [(1, TEXTUAL, False), (2, TEXTUAL, False), (1, ARCHIVES, True), (2, ARCHIVES, True), (3, TEXTUAL[:1], False)]
@@ -92,6 +92,31 @@ def run(tier):
         case, n = make_case(LONG, 1, fmts, arch)
         res = pmap.pmap(n, case, init_fn=mmd.init_worker, deadline_s=dl * 0.9)
         pmap.fold(rep, "length-ladder-%s" % "+".join(f for f, _ in fmts), n, res, "one word of %d lengths (60..4100 bytes, around powers of two) x %d positions x %s x 5 extension sets" % (len(LONG), len(POS), "/".join(f for f, _ in fmts)))
+    # empty components: every construct with its text, URL, title, label or value left empty
+    EMPTY = [b"![alt]()\n", b"![alt](<>)\n", b"![](i.png)\n", b"![]()\n", b"![alt][r]\n\n[r]: <>\n", b"![alt](i.png \"\")\n", b"[text]()\n", b"[](http://u/)\n", b"[text](<>)\n", b"[text](u \"\")\n", b"[t][r]\n\n[r]: <> \"\"\n",
+             b"#\n\ntext\n", b"# []\n", b"## ##\n", b"x[^f]\n\n[^f]:\n", b"x[^f]\n\n[^f]: \n", b"[>ab]:\n\nab\n", b"[?g]:\n\n[?g]\n", b"[#c]:\n\n[#c]\n", b"| |\n|-|\n| |\n", b"|a|\n|-|\n[]\n", b"term\n:\n", b"```\n```\n", b"``` \n\n```\n",
+             b"Title:\n\nbody\n", b"Title: \nAuthor:\n\nbody\n", b"<>\n", b"<mailto:>\n", b"**** __ ``  ``\n", b"{++++}{----}{~~~>~~}{====}{>><<}\n", b"$$\n", b"\\\\(\\\\)\n", b"[%]\n", b"{{TOC}}\n", b"* \n", b"1. \n", b"> \n", b"[^]\n", b"![alt](i.png width= height=)\n", b"[x](u class=)\n"]
+    def empty_case(formats, archive):
+        def case(idx):
+            ei = idx % len(EXTS); idx //= len(EXTS); fi = idx % len(formats); di = idx // len(formats)
+            doc = EMPTY[di]; fname, fmt = formats[fi]; ename, ext = EXTS[ei]; v = []
+            case_d = dict(src=doc.decode("latin-1"), position="empty-component", format=fname, ext=ext)
+            data = mmd.convert_to_data(doc, ext, fmt, 0, ASSETS)
+            members = [(fname, data)]
+            if archive:
+                try:
+                    z = zipfile.ZipFile(io.BytesIO(data)); members = [(nm, z.read(nm)) for nm in z.namelist() if nm.endswith((".xml", ".xhtml", ".opf", ".ncx")) or nm == "mapdata.xml"]
+                except Exception as e:
+                    return (pmap.h64(doc), [("xml:archive-unreadable:" + fname, "cannot open %s archive: %s" % (fname, e), case_d)], dict(judged=1))
+            for nm, d in members:
+                err = xml_ok(d)
+                if err: v.append(("xml:not-well-formed:%s:empty-component:%s" % (nm.split("/")[-1], classify(err)), "%s is not well-formed (%s) for %r" % (nm, err, doc), case_d))
+            return (pmap.h64(doc + bytes([fi, ei])), v, dict(judged=len(members)))
+        return case, len(EMPTY) * len(formats) * len(EXTS)
+    for fmts, arch in ((TEXTUAL, False), (ARCHIVES, True)):
+        case, n = empty_case(fmts, arch)
+        res = pmap.pmap(n, case, init_fn=mmd.init_worker, deadline_s=dl * 0.9)
+        pmap.fold(rep, "empty-components-%s" % "+".join(f for f, _ in fmts), n, res, "%d documents in which one component (URL, alt, title, label, value, cell, term, fence, mark) is empty x %s x 5 extension sets" % (len(EMPTY), "/".join(f for f, _ in fmts)))
     rep.add_sample(dict(position="link-title", src=(POS[9][1] + b"\"&<" + POS[9][2]).decode("latin-1"), formats=["opml", "fodt", "odt", "epub", "itmz"]))
     rep.add_sample(dict(position="code-block", src=(POS[18][1] + b"<<}" + POS[18][2]).decode("latin-1")))
     return rep.finish()
